@@ -128,7 +128,8 @@ class Lz4CompressionHandler(AbstractDataCompressor):
 
     @staticmethod
     def compress_payload(payload: bytes):
-        return lz4.frame.compress(payload)
+        # with content checksum, otherwise corrupted data would be decompressed to a different payload without error
+        return lz4.frame.compress(payload, content_checksum=True)
 
     @staticmethod
     def decompress_payload(payload: bytes):
